@@ -388,7 +388,7 @@ func C05(c *vh.Ctx) {
 	c.Bound("nodes", 3)
 	c.Bound("message_sequence_max", maxLen)
 	c.Bound("limits", limits)
-	c.Rule("all assignments of node templates (message / bindings / action nodes incl. failing, stuck and cyclic ones, message nodes whose guard throws, native and ECMAScript; specs that can fail also with an error node that listens and recovers) to 3 nodes x 3 start states x all message sequences up to the bound over 3 messages x limits x breakpoints (none, at n1, at n2) x every split into consecutive batches; for every n-th spec also one batch of 700 messages under limits around and beyond a thousand steps; invariants (a)-(g) of DESIGN 6/C05 on every Walked, plus equality with the reference walk. states = specs explored, transitions = strides executed; non-trivial = walk with more than one stride.")
+	c.Rule("all assignments of node templates (message / bindings / action nodes incl. failing, stuck and cyclic ones, message nodes whose guard throws, native and ECMAScript; specs that can fail also with an error node that listens and recovers) to 3 nodes x 3 start states x all message sequences up to the bound over 3 messages x limits x breakpoints (none, at n1, at n2) x every split into consecutive batches; a family of specifications whose branch patterns use inequality variables bound in the machine's state next to other properties and guards; for every n-th spec also one batch of 700 messages under limits around and beyond a thousand steps; invariants (a)-(g) of DESIGN 6/C05 on every Walked, plus equality with the reference walk. states = specs explored, transitions = strides executed; non-trivial = walk with more than one stride.")
 	all := seqs(maxLen)
 	// long walks: one batch of several hundred messages (and cyclic specs) under limits around and far beyond a
 	// thousand steps - what holds for six strides has to hold for six thousand
@@ -404,6 +404,57 @@ func C05(c *vh.Ctx) {
 	c.Bound("long_walk_messages", len(longSeq))
 	c.Bound("long_walk_limits", longLimits)
 	c.Bound("long_walk_every_nth_spec", longEvery)
+	// a small family around inequality variables: the machine holds the bound ("?<lim"), branch patterns use it next
+	// to another property, so a message can satisfy the inequality and still fail the branch
+	if c.Shard == 0 || c.Shards == 1 {
+		ineqMsgs := []interface{}{M{"a": 1.0}, M{"a": 1.0, "b": 1.0}, M{"a": 0.0, "b": 1.0}, M{"a": 3.0, "b": 1.0}}
+		ineqSpecs := []*rstep.ASpec{
+			{Nodes: map[string]*rstep.ANode{
+				"n0": {Type: "message", Branches: []rstep.ABranch{{Pattern: M{"a": "?<lim", "b": 1.0}, Target: "n1"}}},
+				"n1": {Type: "message", Branches: []rstep.ABranch{{Pattern: M{"a": "?<lim"}, Target: "n0"}}},
+				"n2": {NoBranches: true}}},
+			{Nodes: map[string]*rstep.ANode{
+				"n0": {Type: "message", Branches: []rstep.ABranch{{Pattern: M{"a": "?<lim"}, Guard: prog(true, Op{K: actlang.RetNull}), Target: "n2"}, {Pattern: M{"a": "?lim", "b": 1.0}, Target: "n1"}}},
+				"n1": {Action: prog(true, Op{K: actlang.Emit, V: M{"at": "n1"}}), Branches: []rstep.ABranch{{Target: "n0"}}},
+				"n2": {NoBranches: true}}},
+			{Nodes: map[string]*rstep.ANode{
+				"n0": {Type: "message", Branches: []rstep.ABranch{{Pattern: M{"a": "?>=lim", "b": 1.0}, Target: "n1"}, {Pattern: M{"a": "?!=lim"}, Target: "n0"}}},
+				"n1": {Type: "bindings", Branches: []rstep.ABranch{{Pattern: M{"?lim": 3.0}, Target: "n2"}, {Target: "n0"}}},
+				"n2": {Type: "message", Branches: []rstep.ABranch{{Pattern: M{"a": "?x"}, Target: "n0"}}}}},
+		}
+		var ineqSeqs [][]interface{}
+		var recI func(cur []interface{})
+		recI = func(cur []interface{}) {
+			if len(cur) > 0 {
+				ineqSeqs = append(ineqSeqs, append([]interface{}{}, cur...))
+			}
+			if len(cur) == 3 {
+				return
+			}
+			for _, m := range ineqMsgs {
+				recI(append(cur, m))
+			}
+		}
+		recI(nil)
+		for _, as := range ineqSpecs {
+			spec, err := as.Build()
+			if err != nil {
+				c.NotExhaustive("an inequality spec does not compile: " + err.Error())
+				continue
+			}
+			for _, start := range []M{{"?<lim": 2.0}, {"?>=lim": 1.0, "?!=lim": 1.0, "?<lim": 2.0}, {}} {
+				for _, sq := range ineqSeqs {
+					cs := walkCase{Spec: as, Node: "n0", Bs: start, Msgs: sq, Limit: 100}
+					o := checkWalk(c, spec, cs)
+					c.R.Traces++
+					c.Count("inequality_family_walks", 1)
+					if len(sq) >= 2 {
+						splitDifferential(c, spec, cs, o)
+					}
+				}
+			}
+		}
+	}
 	nSpecs := 0
 	forEachWalkSpec(c, !c.Quick(), func(as *rstep.ASpec, spec *core.Spec) {
 		nSpecs++
